@@ -162,24 +162,24 @@ def inner_invocation(kind, v, depth_names, counter, first=None, width=2):
     if asy:
         if is_try:
             extra = "".join(" futures::future::ok::<u64, u8>(0)," for _ in xs)
-            body = "%s! { futures::future::ok::<u64, u8>(%s) |> |r| { zt(%d); r }, futures::future::ok::<u64, u8>(20) |> |r| { zt(%d); r },%s map => |a, b%s| a + b%s }" % (kind, v, a, a + 1, extra, xparams, xsum)
+            body = "%s! { futures::future::ok::<u64, u8>(%s) |> |r| { zt(%d); r } ~|> |r| r, futures::future::ok::<u64, u8>(20) |> |r| { zt(%d); r },%s map => |a, b%s| a + b%s }" % (kind, v, a, a + 1, extra, xparams, xsum)
             return "async move { %s.await.unwrap() }" % body, True
         extra = "".join(" futures::future::ready(0u64)," for _ in xs)
-        body = "%s! { futures::future::ready(%s) |> |x| { zt(%d); x }, futures::future::ready(20u64) |> |x| { zt(%d); x },%s then => |a, b%s| futures::future::ready(a + b%s) }" % (kind, v, a, a + 1, extra, xparams, xsum)
+        body = "%s! { futures::future::ready(%s) |> |x| { zt(%d); x } ~|> |x| x, futures::future::ready(20u64) |> |x| { zt(%d); x },%s then => |a, b%s| futures::future::ready(a + b%s) }" % (kind, v, a, a + 1, extra, xparams, xsum)
         return body, True
     if width > 2:
         extra = "".join(" Some(0u64)," for _ in xs)
         if is_try:
-            return "%s! { Some(%s) |> |x| { zt(%d); x }, Some(20u64) |> |x| { zt(%d); x },%s map => |a, b%s| a + b%s }.unwrap()" % (kind, v, a, a + 1, extra, xparams, xsum), False
+            return "%s! { Some(%s) |> |x| { zt(%d); x } ~|> |x| x, Some(20u64) |> |x| { zt(%d); x },%s map => |a, b%s| a + b%s }.unwrap()" % (kind, v, a, a + 1, extra, xparams, xsum), False
         xo = "".join(", %s: Option<u64>" % x for x in xs)
         xu = "".join(" + %s.unwrap()" % x for x in xs)
-        return "%s! { Some(%s) |> |x| { zt(%d); x }, Some(20u64) |> |x| { zt(%d); x },%s then => |a: Option<u64>, b: Option<u64>%s| a.unwrap() + b.unwrap()%s }" % (kind, v, a, a + 1, extra, xo, xu), False
+        return "%s! { Some(%s) |> |x| { zt(%d); x } ~|> |x| x, Some(20u64) |> |x| { zt(%d); x },%s then => |a: Option<u64>, b: Option<u64>%s| a.unwrap() + b.unwrap()%s }" % (kind, v, a, a + 1, extra, xo, xu), False
     # thread-spawning inner macros: the two branches meet at a rendezvous — nested or not, the branches of a step are
     # alive at the same time (`rdv` adds 0 when both are inside together, 1000 when one waited in vain)
     r0 = " + rdv(%d, 2)" % a if "spawn" in kind else ""
     if is_try:
-        return "%s! { Some(%s) |> |x| { zt(%d); x%s }, Some(20u64) |> |x| { zt(%d); x%s }, map => |a, b| a + b }.unwrap()" % (kind, v, a, r0, a + 1, r0), False
-    return "%s! { Some(%s) |> |x| { zt(%d); x%s }, Some(20u64) |> |x| { zt(%d); x%s }, then => |a: Option<u64>, b: Option<u64>| a.unwrap() + b.unwrap() }" % (kind, v, a, r0, a + 1, r0), False
+        return "%s! { Some(%s) |> |x| { zt(%d); x%s } ~|> |x| x, Some(20u64) |> |x| { zt(%d); x%s }, map => |a, b| a + b }.unwrap()" % (kind, v, a, r0, a + 1, r0), False
+    return "%s! { Some(%s) |> |x| { zt(%d); x%s } ~|> |x| x, Some(20u64) |> |x| { zt(%d); x%s }, then => |a: Option<u64>, b: Option<u64>| a.unwrap() + b.unwrap() }" % (kind, v, a, r0, a + 1, r0), False
 
 
 def expected_names(kinds, caller="main"):
@@ -229,7 +229,7 @@ def nest_program(pid, outer, inner, position, rng, third=None, width=2):
             b0 = "%s |> { zc(2); let base = { let v = 4u64; %s }; move |v: u64| v + base }" % (val, sync_use)
         else:
             b0 = "%s |> |v: u64| v + 1" % val
-        b1 = "Some(100u64) |> |x| x + 1"
+        b1 = "Some(100u64) |> |x| x + 1 ~|> |x| x"
         if o_try:
             if position == "handler":
                 h = "map => |a: u64, b: u64| { let v = a + b; %s }" % sync_use
@@ -259,7 +259,7 @@ def nest_program(pid, outer, inner, position, rng, third=None, width=2):
                 b0 = "%s => { zc(2); |v: u64| async move { let base = { let v = 4u64; %s.await }; Ok::<u64, u8>(v + base) } }" % (init0, fut_use)
             else:
                 b0 = "%s |> |r: Result<u64, u8>| r.map(|v| v + 1)" % init0
-            b1 = "%s |> |r: Result<u64, u8>| r.map(|x| x + 1)" % init1
+            b1 = "%s |> |r: Result<u64, u8>| r.map(|x| x + 1) ~|> |r: Result<u64, u8>| r" % init1
             if position == "handler":
                 h = "and_then => |a: u64, b: u64| async move { let v = a + b; Ok::<u64, u8>(%s.await) }" % fut_use
             else:
@@ -273,7 +273,7 @@ def nest_program(pid, outer, inner, position, rng, third=None, width=2):
                 b0 = "%s -> { zc(2); |f: futures::future::Ready<u64>| async move { let w: u64 = f.await; let base = { let v = 4u64; %s.await }; w + base } }" % (init0, fut_use)
             else:
                 b0 = "%s |> |v: u64| v + 1" % init0
-            b1 = "%s |> |x: u64| x + 1" % init1
+            b1 = "%s |> |x: u64| x + 1 ~|> |x: u64| x" % init1
             if position == "handler":
                 h = "then => |a: u64, b: u64| async move { let v = a + b; %s.await }" % fut_use
             else:
